@@ -161,6 +161,25 @@ class Interp(object):
         if st is None:
             if name == '__name__':
                 return mod.name
+            for (level, target) in reversed(mod.star_imports):
+                full = self.program.resolve_relative(mod, level, target or '')
+                m2 = self.program.module(full)
+                if m2 is None or name.startswith('_'):
+                    continue
+                allv = m2.defs.get('__all__')
+                if allv is not None:
+                    try:
+                        names = [e.value for e in allv.value.elts]
+                    except Exception:
+                        names = None
+                    if names is not None and name not in names:
+                        continue
+                try:
+                    v = self.module_get(m2, name)
+                except KeyError:
+                    continue
+                self.module_state[key] = v
+                return v
             if default is KeyError:
                 raise KeyError(name)
             return default
@@ -265,8 +284,9 @@ class Interp(object):
             f.is_generator = _has_own_yield(node)
         return f
 
-    def make_class(self, node, mod):
-        ci = mod.classes.get(node.name)
+    def make_class(self, node, mod, outer=None):
+        ckey = node.name if outer is None else (outer.qualname + '.' + node.name)
+        ci = mod.classes.get(ckey)
         if ci is not None and ci.node is node:
             return ci
         fr = self._module_frame(mod)
@@ -282,7 +302,8 @@ class Interp(object):
         if not bases:
             bases = [self.program.builtin_classes['object']]
         ci = ClassInfo(node.name, mod, node, bases)
-        mod.classes[node.name] = ci
+        ci.outer = outer
+        mod.classes[ckey] = ci
         return ci
 
     def class_lookup(self, cls, name, start_after=None):
@@ -301,6 +322,8 @@ class Interp(object):
             return self.module_state[key]
         if isinstance(st, ast.FunctionDef):
             v = self.make_func(st, owner.module, None, owner, owner.qualname + '.' + name)
+        elif isinstance(st, ast.ClassDef):
+            v = self.make_class(st, owner.module, outer=owner)
         else:
             fr = Frame(owner.module, parent=None)
             # class-body names are visible to later class-body statements
@@ -1043,7 +1066,10 @@ class Interp(object):
             return z_or(z_not(a), self.truth_term(self.eval(node.args[1], frame)))
         if isinstance(f, ast.Name) and f.id == 'old' and self.ctx.spec:
             table = self.lookup('__old__', frame)
-            return table[ast.unparse(node.args[0])]
+            ov = table[ast.unparse(node.args[0])]
+            if isinstance(ov, EngineError):
+                raise ov
+            return ov
         if isinstance(f, ast.Attribute) and f.attr in _LOG_METHODS and isinstance(f.value, ast.Name) \
                 and f.value.id in ('logger', '_logger', 'logging'):
             self.ctx.collector.dropped_calls.append(
